@@ -37,7 +37,7 @@ CHECKS["C08"] = dict(
 CHECKS["C02"] = dict(
     pkg="codec", run="^TestC02_", level="exploration", crash_is_violation=True,
     quick=dict(shards=8, checks=60, timeout=900),
-    thorough=dict(shards=16, checks=600, timeout=3000),
+    thorough=dict(shards=16, checks=600, timeout=3000, fuzz=[dict(pkg="codec", target="FuzzRead", seconds=90)]),
     assumptions=[
         "size bound asserted only when no error is returned (DecodeFloat64 returns n=-1 with an error)",
         "List.Get(i)/GetBytes(i) with i outside [0,Len) panic by documentation and are not called",
@@ -48,7 +48,7 @@ CHECKS["C02"] = dict(
 CHECKS["C13"] = dict(
     pkg="codec", run="^TestC13_", level="exploration",
     quick=dict(shards=8, checks=60, timeout=900),
-    thorough=dict(shards=16, checks=800, timeout=3000),
+    thorough=dict(shards=16, checks=800, timeout=3000, fuzz=[dict(pkg="codec", target="FuzzAgree", seconds=90)]),
     assumptions=[
         "the domain is inputs accepted by ParseValue; inputs that crash a decoder are C02's subject and are skipped here",
         "struct bodies are not parsed by ParseValue, so nothing is asserted about struct members",
@@ -186,7 +186,7 @@ CHECKS["C19"] = dict(
 CHECKS["C15"] = dict(
     parts=[dict(pkg="lang", run="^TestC15_")], level="exploration",
     quick=dict(shards=4, checks=6000, timeout=900),
-    thorough=dict(shards=16, checks=150000, timeout=3000),
+    thorough=dict(shards=16, checks=150000, timeout=3000, fuzz=[dict(pkg="lang", target="FuzzParse", seconds=90)]),
     assumptions=[
         "strings are generated without backslashes or quotes (the parser records string literals by trimming the outer quotes only)",
         "an empty import/options section and an empty output list '()' leave no trace in the syntax tree and are not required to",
